@@ -63,4 +63,110 @@ theorem needed_saved (i : Input) (f : String) (h : needed i f) : f ∈ saving i 
     rw [if_pos ho]
     exact mem_flatten_map.2 ⟨p, List.mem_filter.2 ⟨hp, hx⟩, hf⟩
 
+/-! ## packages with unreadable metadata -/
+
+theorem filter_map_of_fix {α : Type} (q : α → Bool) (g : α → α) (l : List α)
+    (h : ∀ p ∈ l, q (g p) = q p ∧ (q p = true → g p = p)) : (l.map g).filter q = l.filter q := by
+  induction l with
+  | nil => rfl
+  | cons a l ih =>
+    have ha := h a (by simp)
+    have ih' := ih (fun p hp => h p (by simp [hp]))
+    simp only [List.map_cons, List.filter_cons, ha.1]
+    cases hq : q a with
+    | false => simpa using ih'
+    | true => simp [ha.2 hq, ih']
+
+def blank (p : RepoPkg) : RepoPkg := if p.broken then { p with distfiles := [] } else p
+
+theorem visible_repo (i : Input) : (visible i).repo = i.repo.map blank := rfl
+
+theorem blank_targeted (p : RepoPkg) : (blank p).targeted = p.targeted := by unfold blank; split <;> rfl
+theorem blank_excluded (p : RepoPkg) : (blank p).excluded = p.excluded := by unfold blank; split <;> rfl
+
+theorem not_aborts (i : Input) (h : aborts i = false) : ∀ p ∈ i.repo, p.broken = true → touched i p = false := by
+  intro p hp hb
+  unfold aborts at h
+  rw [List.any_eq_false] at h
+  have := h p hp
+  simpa [hb] using this
+
+theorem visible_eq_of_scans (i : Input) (h : aborts i = false) (hs : scans i = true) : visible i = i := by
+  have hnb : ∀ p ∈ i.repo, blank p = p := by
+    intro p hp
+    unfold blank
+    cases hb : p.broken with
+    | false => simp
+    | true =>
+      have := not_aborts i h p hp hb
+      unfold touched at this
+      simp [hs] at this
+  unfold visible
+  have : i.repo.map (fun p => if p.broken then { p with distfiles := [] } else p) = i.repo := by
+    have h2 : i.repo.map blank = i.repo := by
+      conv => rhs; rw [← List.map_id i.repo]
+      exact List.map_congr_left (fun p hp => by simpa using hnb p hp)
+    exact h2
+  rw [this]
+
+theorem removed_visible (i : Input) (h : aborts i = false) : removed (visible i) = removed i := by
+  cases hs : scans i with
+  | true => rw [visible_eq_of_scans i h hs]
+  | false =>
+    have hE : i.opts.excludeExists = false := by
+      unfold scans at hs; cases hx : i.opts.excludeExists <;> simp_all
+    have hF : i.opts.excludeFetchRestricted = false := by
+      unfold scans at hs; cases hx : i.opts.excludeFetchRestricted <;> simp_all
+    have hnames : names (visible i) = names i := rfl
+    have hpass : passes (visible i) = passes i := rfl
+    have htarget : targetFiles (visible i) = targetFiles i := by
+      unfold targetFiles
+      have : (visible i).repo.any (·.targeted) = i.repo.any (·.targeted) := by
+        rw [visible_repo, List.any_map]
+        congr 1
+        funext p
+        exact blank_targeted p
+      rw [this]
+      rfl
+    have hinst : installedDist (visible i) = installedDist i := rfl
+    have hex1 : existsDist (visible i) = [] := by
+      unfold existsDist scans
+      have h1 : (visible i).opts.excludeExists = false := hE
+      have h2 : (visible i).opts.excludeFetchRestricted = false := hF
+      simp [h1, h2]
+    have hex2 : existsDist i = [] := by
+      unfold existsDist scans
+      simp [hE, hF]
+    have hr1 : restrictedDist (visible i) = [] := by
+      unfold restrictedDist scans
+      have h1 : (visible i).opts.excludeExists = false := hE
+      have h2 : (visible i).opts.excludeFetchRestricted = false := hF
+      simp [h1, h2]
+    have hr2 : restrictedDist i = [] := by
+      unfold restrictedDist scans
+      simp [hE, hF]
+    have hexc : excludesDist (visible i) = excludesDist i := by
+      unfold excludesDist
+      have ho : (visible i).opts.hasExclude = i.opts.hasExclude := rfl
+      rw [ho]
+      cases hx : i.opts.hasExclude with
+      | false => simp
+      | true =>
+        simp only [if_true]
+        rw [visible_repo, filter_map_of_fix (·.excluded) blank i.repo]
+        intro p hp
+        refine ⟨blank_excluded p, fun hpe => ?_⟩
+        unfold blank
+        cases hb : p.broken with
+        | false => simp
+        | true =>
+          have := not_aborts i h p hp hb
+          unfold touched at this
+          simp [hx, hpe] at this
+    have hsav : saving (visible i) = saving i := by
+      unfold saving
+      rw [hinst, hex1, hex2, hr1, hr2, hexc]
+    unfold removed
+    rw [hnames, htarget, hsav, hpass]
+
 end Pkgcore.C46
